@@ -2780,22 +2780,25 @@ func onOff(b bool) Atom {
 
 // ExpandTerm transforms term1 according to term_expansion/2 and DCG rules then unifies with term2.
 func ExpandTerm(vm *VM, term1, term2 Term, k Cont, env *Env) *Promise {
-	t, err := expand(vm, term1, env)
-	if err != nil {
-		return Error(err)
-	}
+	return Delay(func(ctx context.Context) *Promise {
+		t, err := expand(ctx, vm, term1, env)
+		if err != nil {
+			return Error(err)
+		}
 
-	return Unify(vm, t, term2, k, env)
+		return Unify(vm, t, term2, k, env)
+	})
 }
 
-func expand(vm *VM, term Term, env *Env) (Term, error) {
+// expand runs a user-defined term_expansion/2 under ctx, the context of the execution that asked for the expansion.
+func expand(ctx context.Context, vm *VM, term Term, env *Env) (Term, error) {
 	if _, ok := vm.procedures[procedureIndicator{name: atomTermExpansion, arity: 2}]; ok {
 		var ret Term
 		v := NewVariable()
 		ok, err := Call(vm, atomTermExpansion.Apply(term, v), func(env *Env) *Promise {
 			ret = env.simplify(v)
 			return Bool(true)
-		}, env).Force(context.Background())
+		}, env).Force(ctx)
 		if err != nil {
 			return nil, err
 		}
